@@ -19,6 +19,9 @@ import (
 
 	"github.com/blevesearch/bleve/v2"
 	"github.com/blevesearch/bleve/v2/index/scorch"
+	"github.com/blevesearch/bleve/v2/mapping"
+	"github.com/blevesearch/bleve/v2/search"
+	"github.com/blevesearch/bleve/v2/search/collector"
 
 	"verif/bx"
 	"verif/mc"
@@ -369,8 +372,124 @@ func body(engine string, names []string) func(c *drv.Ctx) {
 }
 
 // Scenarios: every unordered pair of operations with a concurrent Close, plus triples without Close.
+// ---- cancellation inside a search. The context is cancelled from within the result stream (the
+// public search.MakeDocumentMatchHandlerKey hook: when the k-th hit is handed to the collector), with
+// more than two polling intervals (collector.CheckDoneEvery documents each) of matching documents
+// still to come: the search must return the context's error, and the index stays usable. Enumerated:
+// corpus shape (flat documents / parents with nested elements, where many matching documents fold
+// into few hits) x request form (score order, field sort, with a facet) x k.
+type cancelDoc struct {
+	Title string        `json:"title"`
+	N     float64       `json:"n"`
+	Items []cancelChild `json:"items,omitempty"`
+}
+type cancelChild struct {
+	Name string `json:"name"`
+}
+
+func bodyCancelInside(c *drv.Ctx) {
+	shape := []string{"flat", "nested"}[vrt.Choose(2, "corpus-shape")]
+	form := []string{"score", "sort-by-field", "facet"}[vrt.Choose(3, "request-form")]
+	k := 1 + vrt.Choose(3, "cancel-at-hit")
+	every := int(collector.CheckDoneEvery)
+	im := bleve.NewIndexMapping()
+	field, roots, kids := "title", 3*every+50, 0
+	if shape == "nested" {
+		items := mapping.NewNestedDocumentMapping()
+		items.AddFieldMappingsAt("name", mapping.NewTextFieldMapping())
+		im.DefaultMapping.AddSubDocumentMapping("items", items)
+		field, roots, kids = "items.name", 40, (3*every)/40+2
+	}
+	var idx bleve.Index
+	vrt.Free(func() {
+		var err error
+		idx, err = bleve.NewUsing(c.Dir+"/idx", im, scorch.Name, scorch.Name, nil)
+		if err != nil {
+			panic(err)
+		}
+		for r := 0; r < roots; {
+			b := idx.NewBatch()
+			for n := 0; n < 500 && r < roots; n, r = n+1, r+1 {
+				d := cancelDoc{Title: "widget", N: float64(r % 7)}
+				for j := 0; j < kids; j++ {
+					d.Items = append(d.Items, cancelChild{Name: "widget"})
+				}
+				if err := b.Index(fmt.Sprintf("d%05d", r), d); err != nil {
+					panic(err)
+				}
+			}
+			if err := idx.Batch(b); err != nil {
+				panic(err)
+			}
+		}
+		vrt.WaitIdle()
+	})
+	newReq := func() *bleve.SearchRequest {
+		q := bleve.NewMatchQuery("widget")
+		q.SetField(field)
+		req := bleve.NewSearchRequest(q)
+		req.Size = 5
+		switch form {
+		case "sort-by-field":
+			req.SortBy([]string{"n", "_id"})
+		case "facet":
+			req.AddFacet("byn", bleve.NewFacetRequest("n", 3))
+		}
+		return req
+	}
+	res, err := idx.Search(newReq())
+	if err != nil || int(res.Total) != roots {
+		c.Fail("cancel-inside:sanity", "undisturbed search: %v, total %v want %d", err, res, roots)
+		idx.Close()
+		return
+	}
+	ctx, cancel := context.WithCancel(context.Background())
+	defer cancel()
+	seen, after := 0, 0
+	ctx = context.WithValue(ctx, search.MakeDocumentMatchHandlerKey,
+		search.MakeDocumentMatchHandler(func(sc *search.SearchContext) (search.DocumentMatchHandler, bool, error) {
+			inner, loadID, err := collector.MakeTopNDocumentMatchHandler(sc)
+			if err != nil {
+				return nil, false, err
+			}
+			return func(d *search.DocumentMatch) error {
+				if d != nil {
+					seen++
+					if seen == k {
+						cancel()
+					} else if seen > k {
+						after++
+					}
+				}
+				return inner(d)
+			}, loadID, nil
+		}))
+	_, err = idx.SearchInContext(ctx, newReq())
+	per := 1
+	if kids > 0 {
+		per = kids + 1
+	}
+	c.Observe(fmt.Sprintf("%s/%s/k=%d:err=%v,hits-after-cancel=%d", shape, form, k, err != nil, after))
+	if !errors.Is(err, context.Canceled) {
+		c.Fail("cancelled-search-returned-no-error:"+shape, "%s corpus, request %s: the context was cancelled when hit %d of %d was collected (%d matching documents still to come, polling interval %d) but the search returned err=%v after collecting %d more hits", shape, form, k, roots, (roots-k)*per, every, err, after)
+	} else if after*per > 2*every {
+		c.Fail("cancelled-search-not-prompt:"+shape, "%s corpus, request %s: cancellation noticed only after %d more documents (polling interval %d)", shape, form, after*per, every)
+	}
+	if res, err := idx.Search(newReq()); err != nil || int(res.Total) != roots {
+		c.Fail("index-unusable-after-cancelled-search", "search after the cancelled one: %v", err)
+	}
+	vrt.Free(func() {
+		if err := idx.Close(); err != nil {
+			c.Fail("error:close", "Close: %v", err)
+		}
+	})
+}
+
 func Scenarios() []drv.Scenario {
 	var out []drv.Scenario
+	out = append(out, drv.Scenario{Name: "scorch:cancel-inside-search", Class: "scorch", Workers: 2,
+		Doc:  "sequential: the context is cancelled from inside the result stream (public document-match-handler hook) at hit 1..3, with more than two polling intervals of matching documents still to come; corpus shape (flat / nested elements folding into few parents) x request form x k are environment choices; the search must return the context error and leave the index usable",
+		Body: bodyCancelInside, Quick: []drv.Phase{{Bound: 0}}, Thorough: []drv.Phase{{Bound: 0}}})
 	add := func(engine string, quick bool, names ...string) {
 		sc := drv.Scenario{
 			Name: engine + ":" + strings.Join(names, "+"), Doc: "client threads: " + strings.Join(names, " ∥ ") + " on " + engine,
